@@ -47,6 +47,8 @@ def special_config():
     return {
         '1': {'field_name': 'Bitmap secondary', 'field_type': 'FIXED', 'field_length': 8},
         '127': {'field_name': 'fixed text, last bit', 'field_type': 'FIXED', 'field_length': 5},
+        '66': {'field_name': 'long fixed text', 'field_type': 'FIXED', 'field_length': 1203},
+        '67': {'field_name': 'fixed text after it', 'field_type': 'FIXED', 'field_length': 4},
         '2': {'field_name': 'text', 'field_type': 'LLVAR', 'field_length': 0},
         '5': {'field_name': 'decimal LLVAR', 'field_type': 'LLVAR', 'field_length': 0, 'field_python_type': 'decimal'},
         '6': {'field_name': 'decimal LLLVAR', 'field_type': 'LLLVAR', 'field_length': 0, 'field_python_type': 'decimal'},
